@@ -198,6 +198,22 @@ def check(chk):
             falses = [n for n in gcfg.nodes_where(lambda n: n.kind == "stmt" and isinstance(n.ast, ast.Assign) and
                                                   src(n.ast.targets[0]) in ("color_change", "color_changes") and src(n.ast.value) == "False")
                       if any(x is n.ast for st in h.ast.body for x in ast.walk(st))]
+            # sufficiency: the scan stops at *every* entry with the key (in _remove_fade_out: every fade-out entry with the key), and every
+            # opaque entry above it hides the change -- no further condition on either
+            from sa.helpers import inloop_guards
+            from sa.cfg import canon_fact
+            exits = [n for n in gcfg.nodes_where(lambda n: n.kind == "stmt" and isinstance(n.ast, (ast.Break, ast.Return)))
+                     if any(x is n.ast for st in h.ast.body for x in ast.walk(st))]
+            want_exit = {canon_fact("entry.key == key", True)} | ({canon_fact("entry.dest_color is None", True)} if name == "_remove_fade_out" else set())
+            for n in exits:
+                got = inloop_guards(gcfg, n.id, h.id)
+                chk.ob("DOM-19", "the scan of Light.%s finds every entry with the key (no further condition)" % name, got == want_exit, g.where(n.ast),
+                       detail="selected by %s" % sorted(got), construct=g.ident, text="key match exactly in " + name)
+            for n in falses:
+                got = inloop_guards(gcfg, n.id, h.id)
+                chk.ob("DOM-19", "every opaque entry above the key hides the change in Light.%s (no further condition)" % name,
+                       got - {canon_fact("entry.key == key", False)} == {canon_fact("entry.dest_color is not None", True)}, g.where(n.ast), detail="selected by %s" % sorted(got), construct=g.ident,
+                       text="opaque entry exactly in " + name)
             for n in falses:
                 gd = gcfg.guards_at(n.id)
                 ok = gd.get("entry.dest_color is not None") is True
@@ -732,6 +748,7 @@ def battery():
         M("start brightness of the white channel split differently from the target", LT, "                    if start_color.red == start_color.green == start_color.blue:\n                        start_brightness = start_color.red / 255.0", "                    if start_color.red == start_color.green:\n                        start_brightness = start_color.red / 255.0", "SIB-9"),
         M("lights batched although not adjacent", BL, "                elif light.is_successor_of(sequential_lights[-1]):", "                elif light.is_successor_of(sequential_lights[-1]) or len(sequential_lights) < 2:", "BATCH-4"),
         M("brightness list ignores the fade tolerance", BL, "            if -max_fade_tolerance < common_fade_ms - fade_ms < max_fade_tolerance and \\\n                    len(sequential_brightness_list) < self.max_batch_size:", "            if len(sequential_brightness_list) < self.max_batch_size:", "BATCH-4"),
+        M("keys of some entries are not found when removing", LT, "            if entry.key == key:\n                stack = self.stack[i:]", "            if entry.key == key and entry.priority:\n                stack = self.stack[i:]", "DOM-19"),
     ]
 
 
